@@ -3,7 +3,7 @@ from fractions import Fraction
 
 
 def z(i):
-    return f"({int(i)})"
+    return f"({int(i)})%Z"
 
 
 def nat(n):
